@@ -117,7 +117,7 @@ pub struct Hist {
     pub shadow: Shadow,
     pub shadow_live: bool,
     pub ids_seen: BTreeSet<String>,
-    pub closed: BTreeMap<String, &'static str>, // id -> how it left the book
+    pub closed: BTreeMap<(char, String), &'static str>, // (side, id) -> how it left the book
     pub steps: u64,
 }
 
@@ -176,6 +176,14 @@ fn denoms_disjoint(c: &Cfg) -> bool {
     let mut left: Vec<&String> = c.convs.iter().collect();
     left.push(&c.base);
     !left.iter().any(|d| c.quotes.contains(d))
+}
+
+/// every key of `exp` is present in `got` with an equal value (extra keys in `got` are tolerated)
+pub fn json_covers(got: &Value, exp: &Value) -> bool {
+    match (got, exp) {
+        (Value::Object(g), Value::Object(e)) => e.iter().all(|(k, v)| g.get(k).map_or(false, |x| json_covers(x, v))),
+        _ => got == exp,
+    }
 }
 
 pub fn msg_body<'a>(msg: &'a Value) -> (&'a str, &'a Value) {
@@ -508,7 +516,7 @@ fn step_create_ask(c: &StepCtx, cfg: &Cfg, body: &Value, sender: &str, funds: &[
     let class = if base == cfg.base { json!("Basic") } else { json!({"Convertible": {"status": "PendingIssuerApproval"}}) };
     let exp = json!({"id": id, "owner": sender, "class": class, "base": base, "quote": body["quote"], "price": body["price"], "size": size.to_string()});
     match c.post_book.asks.get(&id) {
-        Some(a) if a.raw == exp => {}
+        Some(a) if json_covers(&a.raw, &exp) => {}
         got => viol(out, "C07", "record", "recorded ask differs from the request", format!("expected {} got {:?}", exp, got.map(|a| a.raw.clone()))),
     }
     // escrow mechanism: exactly one attached coin, or exactly one pull from the sender
@@ -530,6 +538,7 @@ fn step_create_ask(c: &StepCtx, cfg: &Cfg, body: &Value, sender: &str, funds: &[
         viol(out, "C07", "escrow", "escrow taken differs from the obligation recorded", format!("contract delta {:?} expected {:?}", cdelta, expd));
         viol(out, "C01", "per-order", "ask escrow differs from the size recorded", format!("contract delta {:?} expected {:?}", cdelta, expd));
     }
+    h.closed.remove(&('a', id.clone()));
     h.escrow.insert(('a', id), Escrow { main: *cdelta.get(&base).unwrap_or(&0), approver: 0 });
     st.eval("C01", format!("create_ask|{}|{}", if base == cfg.base { "basic" } else { "conv" }, marker_of(c.pre, &base).name()));
 }
@@ -551,7 +560,7 @@ fn step_create_bid(c: &StepCtx, cfg: &Cfg, body: &Value, sender: &str, funds: &[
     let exp = json!({"base": {"denom": body["base"], "amount": size.to_string()}, "accumulated_base": "0", "accumulated_quote": "0", "accumulated_fee": "0",
         "fee": feej, "id": id, "owner": sender, "price": body["price"], "quote": {"denom": quote, "amount": qsize.to_string()}});
     match c.post_book.bids.get(&id) {
-        Some(b) if b.raw == exp => {}
+        Some(b) if json_covers(&b.raw, &exp) => {}
         got => viol(out, "C07", "record", "recorded bid differs from the request", format!("expected {} got {:?}", exp, got.map(|a| a.raw.clone()))),
     }
     let need = qsize + fee.as_ref().map_or(0, |f| f.1);
@@ -593,6 +602,7 @@ fn step_create_bid(c: &StepCtx, cfg: &Cfg, body: &Value, sender: &str, funds: &[
             viol(out, "C09", "entry-fee", "fee escrowed with a bid differs from rate x total rounded half up", format!("rate {} total {} expected {} recorded {}", rate, qsize, due, got));
         }
     }
+    h.closed.remove(&('b', id.clone()));
     h.escrow.insert(('b', id), Escrow { main: *cdelta.get(&quote).unwrap_or(&0), approver: 0 });
     st.eval("C01", format!("create_bid|fee:{}|{}", fee_class(fee.as_ref().map_or(0, |f| f.1), if fee.is_some() { 1 } else { 0 }), marker_of(c.pre, &quote).name()));
 }
@@ -611,7 +621,7 @@ fn step_approve(c: &StepCtx, cfg: &Cfg, body: &Value, sender: &str, funds: &[(St
     if let Some(a) = c.pre_book.asks.get(&id) {
         let mut exp = a.raw.clone();
         exp["class"] = json!({"Convertible": {"status": {"Ready": {"approver": sender, "converted_base": {"denom": cfg.base, "amount": a.size.to_string()}}}}});
-        if c.post_book.asks.get(&id).map(|x| &x.raw) != Some(&exp) {
+        if !c.post_book.asks.get(&id).map_or(false, |x| json_covers(&x.raw, &exp)) {
             viol(out, "C08", "approval", "approved ask not recorded as ready with the approver's escrow", format!("expected {} got {:?}", exp, c.post_book.asks.get(&id).map(|x| x.raw.clone())));
         }
     }
@@ -851,10 +861,10 @@ fn step_match(c: &StepCtx, cfg: &Cfg, body: &Value, sender: &str, funds: &[(Stri
     }
     st.eval("C01", format!("match|{}|a:{}|b:{}|bf:{}|{}", a.class.name(), ask_done, bid_done, if b.fee.is_none() { "none" } else { "fee" }, marker_sig(c.pre, &[&cfg.base, &a.base, &b.quote_denom])));
     if ask_done {
-        h.closed.insert(ask_id, "filled");
+        h.closed.insert(('a', ask_id), "filled");
     }
     if bid_done {
-        h.closed.insert(bid_id, "filled");
+        h.closed.insert(('b', bid_id), "filled");
     }
 }
 
@@ -917,7 +927,7 @@ fn step_reverse(c: &StepCtx, cfg: &Cfg, kind: &str, body: &Value, delta: &Ledger
         }
         st.eval("C01", format!("{}|{}|{}|{}", kind, a.class.name(), if closes { "closes" } else { "stays" }, marker_sig(c.pre, &[&a.base, &cfg.base])));
         if closes {
-            h.closed.insert(id, how);
+            h.closed.insert(('a', id), how);
         }
     } else {
         let b = match c.pre_book.bids.get(&id) {
@@ -975,7 +985,7 @@ fn step_reverse(c: &StepCtx, cfg: &Cfg, kind: &str, body: &Value, delta: &Ledger
         }
         st.eval("C01", format!("{}|fee:{}|{}|{}", kind, b.fee.is_some(), if closes { "closes" } else { "stays" }, marker_sig(c.pre, &[&b.quote_denom])));
         if closes {
-            h.closed.insert(id, how);
+            h.closed.insert(('b', id), how);
         }
     }
 }
